@@ -272,7 +272,7 @@ func obsU64x(a, b []int, n int) map[string][]int {
 }
 
 // observe runs one group on the real types. skipped: the group was not run (too many hung divisions).
-func observe(g string, a, b []int, n int) (o map[string][]int, skipped bool) {
+func observeFp(g string, a, b []int, n int) (o map[string][]int, skipped bool) {
 	k := len(a) / 8
 	switch g {
 	case "un":
@@ -462,7 +462,7 @@ func replayC20(env *Env) {
 	one := func(i int) {
 		c := &cases[i]
 		cls := fpClass(c, c.X)
-		o, skipped := observe(c.G, c.A, c.B, c.N)
+		o, skipped := observeFp(c.G, c.A, c.B, c.N)
 		if skipped {
 			env.ok(fmt.Sprintf("u%d/%s/not-run", 8*len(c.A), c.G))
 			return
@@ -594,7 +594,7 @@ func recordC20(env *Env) {
 	nDivBig := env.optInt("div256", nDiv/4)
 	widths := []int{1, 2, 4}
 	emit := func(c fpCase) {
-		o, skipped := observe(c.G, c.A, c.B, c.N)
+		o, skipped := observeFp(c.G, c.A, c.B, c.N)
 		if skipped {
 			return
 		}
